@@ -277,8 +277,67 @@ def observe_stages(case):
     return [rec]
 
 
+def observe_stages2(case):
+    """Reactor(one_shot=False) with two patterns: both orders of the reactants against the single-stage relation over ordered pairs"""
+    from chython import smiles, smarts
+    from chython.reactor import Reactor
+    ids, store = {}, {}
+
+    def mid(m):
+        k = ids.setdefault(str(m), len(ids) + 1)
+        store.setdefault(k, m)
+        return k
+    rec = {'key': case['key'], 'start': [], 'limit': case['limit'], 'step2': [], 'size': [], 'outs': [], 'outs2': [], 'exc': ''}
+    mols = [smiles(s) for s in case['mols']]
+    for m in mols:
+        m.canonicalize()
+    pats, prod = [smarts(x) for x in case['patterns']], smarts(case['product'])
+    try:
+        one = Reactor(pats, [prod], one_shot=True, automorphism_filter=False)
+        many = Reactor(pats, [prod], one_shot=False, polymerise_limit=case['limit'], automorphism_filter=False)
+        rec['start'] = [mid(m) for m in mols]
+        done = {}
+
+        def step2(a, b):
+            if (a, b) not in done:
+                res = set()
+                for r in one(store[a].copy(), store[b].copy()):
+                    if len(r.products) != 1:
+                        raise ValueError('template gave several molecules')
+                    res.add(mid(r.products[0]))
+                done[(a, b)] = sorted(res)
+                if len(done) > 600:
+                    raise OverflowError
+            return done[(a, b)]
+        entries = {((rec['start'][0], rec['start'][1]), ()), ((rec['start'][1], rec['start'][0]), ())}
+        for _ in range(case['limit']):      # data collection only (which ordered pairs occur): the closure itself is TLC's
+            nxt = set()
+            for ch, rest in entries:
+                for new in step2(*ch):
+                    prod_ = (new,) + rest
+                    for k in range(len(prod_)):
+                        r2 = tuple(sorted(prod_[:k] + prod_[k + 1:]))
+                        for x in ch:
+                            nxt.add(((prod_[k], x), r2))
+                            nxt.add(((x, prod_[k]), r2))
+            entries = nxt
+        rec['step2'] = [{'a': a, 'b': b, 'res': v} for (a, b), v in sorted(done.items())]
+        o1 = list(itertools.islice(many(*[m.copy() for m in mols]), 3000))
+        o2 = list(itertools.islice(many(*[m.copy() for m in mols[::-1]]), 3000))
+        if len(o1) == 3000 or len(o2) == 3000:
+            return [{'skip': 'too-many-results'}]
+        rec['outs'] = [sorted(mid(x) for x in r.products) for r in o1]
+        rec['outs2'] = [sorted(mid(x) for x in r.products) for r in o2]
+        rec['size'] = [sum(1 for a in store[k]._atoms.values() if a.atomic_number != 1) for k in range(1, len(ids) + 1)]
+    except OverflowError:
+        return [{'skip': 'too-many-pairs'}]
+    except Exception as e:
+        rec['exc'] = type(e).__name__ + ':' + str(e)[:80]
+    return [rec]
+
+
 def observe(case):
-    return {'recs': {'apply': observe_apply, 'identity': observe_identity, 'doc': observe_doc, 'reactor': observe_reactor, 'stages': observe_stages}[case['part']](case)}
+    return {'recs': {'apply': observe_apply, 'identity': observe_identity, 'doc': observe_doc, 'reactor': observe_reactor, 'stages': observe_stages, 'stages2': observe_stages2}[case['part']](case)}
 
 
 # centres / double bonds that an edit makes non-stereogenic (the label has to go), each at an even and an odd pool position
@@ -359,6 +418,33 @@ def run(ck):
         ck.model('mc-reactor-queue', 'MC_ReactorQueue', mcq('MC_ReactorQueue_quick' if ck.quick else 'MC_ReactorQueue'), timeout=1800)
         for name, inv in (('MC_ReactorQueue_sens_lifo', 'BreadthFirst'), ('MC_ReactorQueue_sens_nodedup', 'NoDuplicates'), ('MC_ReactorQueue_sens_limit', 'BreadthFirst')):
             ck.model('selftest-' + name, 'MC_ReactorQueue', mcq(name), expect_violation=inv)
+    if not ck.replay:
+        ck.model('mc-reactor-queue-two-patterns', 'MC_ReactorQueue2', mcq('MC_ReactorQueue2_quick' if ck.quick else 'MC_ReactorQueue2'), timeout=3000)
+        # without the growth assumption the work-list can miss mixtures (a mixture is keyed without the pair that led to it): TLC must show that
+        ck.model('selftest-MC_ReactorQueue2_any', 'MC_ReactorQueue2', mcq('MC_ReactorQueue2_any'), expect_violation='OrderFree')
+    two = [(['[C:1](=[O:2])[O;D1:3]', '[N;D1:4][C:5]'], '[C:1](=[O:2])[N:4][C:5]'), (['[C:1](=[O:2])[O;D1:3]', '[O;D1:4][C;z1:5]'], '[C:1](=[O:2])[O:4][C:5]'),
+           (['[C;z1:1][Br:2]', '[O;D1:3][C;z1:4]'], '[C:1][O:3][C:4]')]
+    two_inputs = [['OC(=O)CC(=O)O', 'NCCN'], ['OC(=O)CCC(=O)O', 'NCCO'], ['OC(=O)CCN', 'NCC(=O)O'], ['OC(=O)CN', 'OC(=O)CCN'], ['OC(=O)CO', 'OCC(=O)O'], ['BrCCBr', 'OCCO'], ['BrCCO', 'OCCBr'],
+                  ['OC(=O)c1ccc(cc1)C(=O)O', 'OCCO'], ['CC(=O)O', 'NCCN'], ['OC(=O)CC(=O)O', 'CN']]
+    s2cases = [{'part': 'stages2', 'key': f'stages2|{pp}>>{q}|{mols}|{lim}', 'patterns': pp, 'product': q, 'mols': mols, 'limit': lim}
+               for pp, q in two for mols in two_inputs for lim in ((1, 2) if ck.quick else (1, 2, 3))]
+    s2cases = ck.select('multi-stage-two-patterns', s2cases)
+    if s2cases:
+        res = vlib.pmap('checks.c16', 'observe', s2cases)
+        recs, keys, skipped = [], [], 0
+        for c, r in zip(s2cases, res):
+            if '_observer_error' in r:
+                raise vlib.Machinery(r['_observer_error'] + r['_tb'])
+            for x in r['recs']:
+                if 'skip' in x or not x['outs'] and not x['exc']:
+                    skipped += 1
+                    continue
+                recs.append(x)
+                keys.append(c)
+        ck.ood('multi-stage-two-patterns: template does not match / enumeration too large', skipped)
+        if recs:
+            out = ck.validate('multi-stage-two-patterns', 'Trace_Reactor2', keys, recs)
+            ck.ood('multi-stage-two-patterns: a product is not larger than its reactants (completeness not claimed)', out['out'].count('"ood"'))
     stage_templates = [('[C;h1,h2,h3:1]', '[C:1]Cl'), ('[O;D1;h1:1]', '[O:1]C'), ('[C:1][Cl:2]', '[C:1]'), ('[C;h2,h3:1]-[C;h2,h3:2]', '[C:1]=[C:2]'), ('[N;h1,h2:1]', '[N:1]C(C)=O'),
                        ('[C:1]=[C:2]', '[C:1]1[C:2]O1'), ('[C:1](=[O:2])[O;D1:3]', '[C:1](=[O:2])[O:3]C'), ('[C;z4;h1:1]', '[C:1]F')]
     stage_inputs = [['CC'], ['CCC'], ['OCCO'], ['OCC(O)CO'], ['ClCCCl'], ['ClC(Cl)Cl'], ['CO', 'CCO'], ['NCCN'], ['C=CC=C'], ['OC(=O)CC(=O)O'], ['c1ccccc1'], ['Cc1ccccc1'], ['CC', 'CC'],
